@@ -32,6 +32,7 @@ fn guarded<F: FnOnce() + std::panic::UnwindSafe>(f: F) -> bool {
 
 pub fn run_c18(args: &Args) -> Report {
     let mut rep = Report::new("C18", "M10", &args.replay_dir);
+    let bin = args.bin.clone().unwrap_or_default();
     let last_panic: Arc<Mutex<String>> = Arc::new(Mutex::new(String::new()));
     {
         let lp = last_panic.clone();
@@ -323,6 +324,62 @@ pub fn run_c18(args: &Args) -> Report {
         let before_panics = PANICS.load(Ordering::SeqCst);
         let obs = run_impl(&pdir, &cfg, &log);
         current.lock().unwrap().2 = false;
+        // the same configuration through the CLI binary with the progress display on (default or verbose):
+        // the display code only runs there
+        if bin.exists() && !kind.contains("huge-line") && rng.chance(1, 4) {
+            let cdir = dir.join("cli");
+            let _ = std::fs::remove_dir_all(&cdir);
+            std::fs::create_dir_all(&cdir).unwrap();
+            write_tree(&before, &cdir);
+            let mut c = std::process::Command::new(&bin);
+            c.current_dir(&cdir).env_remove("TXTPP_FILE").env("VERIF_LOG", dir.join("cli-markers.log"));
+            match mode {
+                "needed" => { c.arg("-N"); }
+                "verify" => { c.arg("verify"); }
+                "clean" => { c.arg("clean"); }
+                _ => {}
+            }
+            let verbose = rng.chance(1, 2);
+            if verbose {
+                c.arg("-v");
+            }
+            c.arg("-j").arg(threads.to_string());
+            if cfg.recursive {
+                c.arg("-r");
+            }
+            c.args(&cfg.inputs).stdout(std::process::Stdio::null()).stderr(std::process::Stdio::piped());
+            rep.count(if verbose { "cli-verbose-runs" } else { "cli-default-verbosity-runs" });
+            if let Ok(mut child) = c.spawn() {
+                let t0 = std::time::Instant::now();
+                // drain stderr in a thread so that a full pipe cannot block the child
+                let mut errpipe = child.stderr.take().unwrap();
+                let reader = std::thread::spawn(move || {
+                    let mut s = Vec::new();
+                    let _ = std::io::Read::read_to_end(&mut errpipe, &mut s);
+                    String::from_utf8_lossy(&s).to_string()
+                });
+                let mut status = None;
+                while t0.elapsed() < std::time::Duration::from_secs(40) {
+                    if let Ok(Some(st)) = child.try_wait() {
+                        status = Some(st);
+                        break;
+                    }
+                    std::thread::sleep(std::time::Duration::from_millis(20));
+                }
+                if status.is_none() {
+                    let _ = child.kill();
+                    let _ = child.wait();
+                    rep.violation("oracle", &format!("C18: the CLI binary (verbose={verbose}) did not return within 40 s on {} ({})", cfg.describe(), kind), &body);
+                }
+                let err = reader.join().unwrap_or_default();
+                if let Some(st) = status {
+                    if st.code() == Some(101) || err.contains("panicked at") {
+                        let line = err.lines().find(|l| l.contains("panicked at")).unwrap_or("").to_string();
+                        rep.violation("oracle", &format!("C18: the CLI binary (verbose={verbose}) panics on {} ({}): {}", cfg.describe(), kind, line), &body);
+                    }
+                }
+            }
+        }
         rep.evaluations += 1;
         rep.count(&format!("mode:{mode}"));
         rep.count(&format!("verdict:{}", obs.verdict));
